@@ -958,8 +958,9 @@ def sys_fixed(tier):
     return out
 
 
-def sys_family(rq, rt):
-    return dict(family="sys", trace_module="Trace_Sys", random_quick=rq, random_thorough=rt, no_mech=True, tag="sys", fixed=sys_fixed,
+def sys_family(rq, rt, sub="none"):
+    return dict(family="sys", trace_module="Trace_Sys", random_quick=rq, random_thorough=rt, no_mech=True, tag="sys-" + sub, fixed=sys_fixed,
+                opts={"sub": sub},
                 exports=[sys_export("phased"), sys_export("phased-mif1-nolimit", tiers=("thorough",), Mif=1, L="<-NoL", Calls="{1, 2, 3}", MaxEnv=6)])
 
 
@@ -967,6 +968,10 @@ for _p in ("C01", "C02", "C03", "C04", "C10", "C12", "C13"):
     PROPS[_p]["families"].append(sys_family(700, 12000))
     PROPS[_p]["models"].append(sys_model("system-phased", tiers=("quick", "thorough") if _p in ("C12", "C13") else ("thorough",)))
     PROPS[_p]["models"].append(sys_model("system-interleaved", tiers=("thorough",), Phased=False, MaxEnv=6))
+# C18 with many requests in flight on several connections, over the in-memory, JSON and bincode transports, without a subscriber and
+# under a process-wide OpenTelemetry layer: every handler observes the trace id and sampling decision of its own call
+PROPS["C18"]["families"].append(sys_family(500, 8000))
+PROPS["C18"]["families"].append(sys_family(500, 8000, sub="otel"))
     PROPS[_p]["assumptions"] = PROPS[_p]["assumptions"] + [
         "sys family: listener -> max_channels_per_key -> max_concurrent_requests_per_channel -> execute -> spawn_incoming and spawned "
         "clients on a current-thread tokio runtime with a paused clock, run until idle after (batches of) application steps; "
@@ -1076,7 +1081,9 @@ _OTEL = (" The chain family (real client -> server -> handler -> client chains o
          "also report context::current() and use it for nested calls; Trace_Chain.tla judges deadlines and trace contexts at every hop.")
 MANIFEST_TEXT["C07"] = dict(MANIFEST_TEXT["C07"], text=MANIFEST_TEXT["C07"]["text"] + _OTEL,
                             note="Exploration level for the codec crossing (single hops); chains of depth 1-3 are executed in memory with virtual transit delays.")
-MANIFEST_TEXT["C18"] = dict(MANIFEST_TEXT["C18"], text=MANIFEST_TEXT["C18"]["text"] + _OTEL,
+MANIFEST_TEXT["C18"] = dict(MANIFEST_TEXT["C18"], text=MANIFEST_TEXT["C18"]["text"] + _OTEL + " The sys family (whole stack on a real runtime, many requests in flight on several "
+                            "connections, in-memory / JSON / bincode transports, with and without an OpenTelemetry layer) checks that every handler observes the trace "
+                            "context of its own call (Inv_C18sys).",
                             note=MANIFEST_TEXT["C18"]["note"].replace("Only the client hop is bound to the code so far; server hop and chains are modelled but not yet replayed.", "Chains are settle-driven rather than individually scheduled."))
 MANIFEST_TEXT["C04"] = dict(MANIFEST_TEXT["C04"], note=MANIFEST_TEXT["C04"]["note"].replace("The multi-hop cascade is not yet bound to the code.", "The multi-hop cascade is executed by the chain family (Chain.tla / Trace_Chain.tla), including handlers that own the only handle of their downstream client."))
 MANIFEST_TEXT["C16"] = dict(MANIFEST_TEXT["C16"], text=MANIFEST_TEXT["C16"]["text"] + " Two-rpc services enumerated by Glue.tla are compiled and their generated "
